@@ -1939,6 +1939,12 @@ def _emit_block(
                 lines.append(f"{indent}digitalWrite({in1_expr}, LOW);")
                 lines.append(f"{indent}digitalWrite({in2_expr}, LOW);")
                 lines.append(f"{indent}analogWrite({enable_expr}, 0);")
+                if (node.name, "<declared>") in emitted_pin_modes:
+                    # the name is bound to a NEW DCMotor: stopped, not inverted, coasting
+                    lines.append(f"{indent}__dc_speed_{node.name} = 0.0f;")
+                    lines.append(f"{indent}__dc_inverted_{node.name} = false;")
+                    lines.append(f'{indent}__dc_mode_{node.name} = "coast";')
+                emitted_pin_modes.add((node.name, "<declared>"))
             continue
 
         if isinstance(node, DCMotorSetSpeed):
